@@ -356,7 +356,59 @@ func (propC06) Exec(p *Plan2, res *Result2) {
 		}
 		switch porcupine.CheckOperationsTimeout(model, ops, 15*time.Second) {
 		case porcupine.Illegal:
-			res.add("C06", "C06/least-connections/pick-minimal-at-no-instant", "list [%s]: no linearisation of this history makes every selected endpoint minimal at the moment of selection; %d context switches; %v", desc(), s.Switches, res.Hist)
+			// Which defect is it? A selector that samples each gauge at its own instant inside the call (the
+			// non-atomic sweep recorded as a known finding) can return e only if some value e's gauge had during
+			// the call is <= some value every other gauge had during the call. If not even that explains the
+			// pick, counts were lost or stale values were used: a different, unlisted violation.
+			class := "C06/least-connections/pick-minimal-at-no-instant"
+			for _, sop := range ops {
+				in := sop.Input.(lcIn)
+				if in.op != "select" {
+					continue
+				}
+				rng := func(name string) (lo, hi int) {
+					for _, o := range ops {
+						oi := o.Input.(lcIn)
+						if oi.name != name {
+							continue
+						}
+						switch oi.op {
+						case "inc":
+							if o.Return < sop.Call {
+								lo++
+							}
+							if o.Call < sop.Return {
+								hi++
+							}
+						case "dec":
+							if o.Call < sop.Return {
+								lo--
+							}
+							if o.Return < sop.Call {
+								hi--
+							}
+						}
+					}
+					if lo < 0 {
+						lo = 0
+					}
+					return
+				}
+				got := sop.Output.(string)
+				loE, _ := rng(got)
+				for _, n := range names {
+					if _, hiX := rng(n); n != got && loE > hiX {
+						class = "C06/least-connections/not-minimal-for-any-sampling-of-the-gauges"
+						res.add("C06", class, "list [%s]: select [%d,%d] returned %s, which had at least %d connections during the whole call, while %s never had more than %d; %v", desc(), sop.Call, sop.Return, got, loE, n, hiX, res.Hist)
+					}
+				}
+				if class != "C06/least-connections/pick-minimal-at-no-instant" {
+					break
+				}
+			}
+			if class == "C06/least-connections/pick-minimal-at-no-instant" {
+				res.add("C06", class, "list [%s]: no linearisation of this history makes every selected endpoint minimal at the moment of selection; %d context switches; %v", desc(), s.Switches, res.Hist)
+			}
 		case porcupine.Unknown:
 			res.probe("c06.porcupine-timeout")
 		default:
